@@ -36,7 +36,6 @@ ASSUMPTIONS = [
     "'valid value' is defined by the registry; a value the setter rejects is counted as rejected, not as a violation",
     "uid, association, primitive type and property-group members are creation-time only and are not re-assigned",
     "survey link / EM parameters are judged under C20",
-    "renaming concatenated data inside a multi-attribute session is left to C04 (its values are keyed by name in the concatenated arrays)",
 ]
 FLAGS = ["allow_delete", "allow_move", "allow_rename", "public", "visible", "partially_hidden"]
 SKIP = {"uid", "on_file", "parent", "workspace", "entity_type", "association", "primitive_type", "properties", "modifiable", "image", "tag", "visual_parameters", "depths", "parts",
@@ -515,8 +514,7 @@ def run_case(case, rec):
                 rec.see(f"uncovered:{label}.{attr}")
         # 2. all attributes in one session, in a seeded order (each attribute is sometimes the last write)
         if len(judged) >= 2:
-            # renaming concatenated data moves none of its stored arrays (a C04 finding); keep that mechanism out of the C03 sequences
-            order = [a for a in judged if not (cname == "ConcatenatedData" and a == "name")]
+            order = judged[:]
             rng.shuffle(order)
             ws = Workspace(path, mode="r+")
             subject = fetch(ws, kind, uid)
